@@ -51,10 +51,13 @@ class Definition:
 
     counter = 0
 
-    def __init__(self, world, df, sabotage=None):
+    def __init__(self, world, df, sabotage=None, base=None):
+        """base: the Definition of the leading fields df[:len(base.df)]; then the classes built here are *subclasses* of
+        the base's classes that add the remaining fields (PayloadDef.tla: Derive)."""
         from ipv8.messaging.lazy_payload import VariablePayload, vp_compile
         from ipv8.messaging.payload_dataclass import DataClassPayload, type_from_format
-        self.world, self.df = world, df
+        self.world, self.df, self.base = world, df, base
+        self.split = len(base.df) if base is not None else 0
         self.VariablePayload, self.vp_compile = VariablePayload, vp_compile
         self.DataClassPayload, self.type_from_format = DataClassPayload, type_from_format
         codec = world.codec
@@ -87,15 +90,32 @@ class Definition:
                     self.forms[form] = c
             except MachineryError:
                 raise
+            except LookupError:
+                pass                          # the base has no such form: nothing to derive from
             except Exception as e:  # noqa: BLE001
                 self.errors[form] = "%s: %s" % (type(e).__name__, str(e)[:160])
 
     # ---- the class bodies a user would write
+    def _own_hooks(self):
+        """custom rules written in this class body (those of the base fields are inherited from the base class)."""
+        own = {n for names in self.field_names[self.split:] for n in names}
+        ns = {}
+        for n, (hp, hu) in self.hooks.items():
+            if n in own:
+                ns["fix_pack_" + n] = (lambda hp: lambda self, v: hp(v))(hp)
+                ns["fix_unpack_" + n] = classmethod((lambda hu: lambda cls, v: hu(v))(hu))
+        return ns
+
+    def _parent(self, form, default):
+        if self.base is None:
+            return default
+        if form not in self.base.forms:
+            raise LookupError("base class has no %s form" % form)
+        return self.base.forms[form]
+
     def _namespace(self):
         ns = {"format_list": list(self.format_list), "names": list(self.names)}
-        for n, (hp, hu) in self.hooks.items():
-            ns["fix_pack_" + n] = (lambda hp: lambda self, v: hp(v))(hp)
-            ns["fix_unpack_" + n] = classmethod((lambda hu: lambda cls, v: hu(v))(hu))
+        ns.update(self._own_hooks())
         if self.defaults:
             params = ", ".join(n if n not in self.defaults else "%s=_d[%r]" % (n, n) for n in self.names)
             src = "def __init__(self, %s, **kwargs):\n    VariablePayload.__init__(self, %s, **kwargs)\n" % (
@@ -106,26 +126,24 @@ class Definition:
         return ns
 
     def _plain(self):
-        return type("Plain%d" % self.uid, (self.VariablePayload,), self._namespace())
+        return type("Plain%d" % self.uid, (self._parent("plain", self.VariablePayload),), self._namespace())
 
     def _compiled(self):
-        return self.vp_compile(type("Compiled%d" % self.uid, (self.VariablePayload,), self._namespace()))
+        return self.vp_compile(type("Compiled%d" % self.uid, (self._parent("compiled", self.VariablePayload),), self._namespace()))
 
     def _dataclass(self):
         if any(f["k"] == "bits" for f in self.df):
             return None                       # eight names for one format: not expressible as dataclass fields
+        if self.base is not None and "dataclass" not in self.base.forms:
+            return None
         fields = []
-        for f, names in zip(self.df, self.field_names):
+        for f, names in list(zip(self.df, self.field_names))[self.split:]:     # a derived dataclass lists its own fields only
             k, n = f["k"], names[0]
             t = NATURAL.get(k) or (list[int] if k == "arrayH-q" else self.nested if k == "payload" else
                                    list[self.nested] if k == "payload-list" else self.type_from_format(k))
             fields.append((n, t, dataclasses.field(default=self.defaults[n])) if n in self.defaults else (n, t))
-        ns = {}
-        for n, (hp, hu) in self.hooks.items():
-            ns["fix_pack_" + n] = (lambda hp: lambda self, v: hp(v))(hp)
-            ns["fix_unpack_" + n] = classmethod((lambda hu: lambda cls, v: hu(v))(hu))
-        return dataclasses.make_dataclass("Data%d" % self.uid, fields, bases=(self.DataClassPayload,), namespace=ns,
-                                          module=__name__)
+        return dataclasses.make_dataclass("Data%d" % self.uid, fields, bases=(self._parent("dataclass", self.DataClassPayload),),
+                                          namespace=self._own_hooks(), module=__name__)
 
     # ---- expected values in python / normal form
     def flat(self, values):
@@ -157,15 +175,17 @@ def run_form(world, defn, form, st):
     if form in defn.errors:
         return {"class": ("raised", defn.errors[form].split(":")[0], defn.errors[form])}
     cls = defn.forms[form]
-    try:
+
+    def construct():
         if style == "positional":
-            inst = cls(*args)
-        elif style == "keyword":
+            return cls(*args)
+        if style == "keyword":
             p = len(names) // 2
-            inst = cls(*args[:p], **dict(zip(names[p:], args[p:])))
-        else:
-            q = len([n for n in names if n not in defn.defaults])
-            inst = cls(*args[:q])
+            return cls(*args[:p], **dict(zip(names[p:], args[p:])))
+        q = len([n for n in names if n not in defn.defaults])
+        return cls(*args[:q])
+    try:
+        inst = construct()
         out["construct"] = canon(defn.attributes(inst))
     except Exception as e:  # noqa: BLE001
         out["construct"] = ("raised", type(e).__name__, "%s: %s" % (type(e).__name__, str(e)[:160]))
@@ -177,9 +197,15 @@ def run_form(world, defn, form, st):
             out["pack"] = ("raised", type(e).__name__, "%s: %s" % (type(e).__name__, str(e)[:160]))
     try:
         dec, end = ser.unpack_serializable(cls, bytes(st["pbytes"]))
-        out["unpack"] = (canon(defn.attributes(dec)), end)
+        out["unpack"] = (canon(defn.attributes(dec)), end, type(dec) is cls)
     except Exception as e:  # noqa: BLE001
         out["unpack"] = ("raised", type(e).__name__, "%s: %s" % (type(e).__name__, str(e)[:160]))
+    if inst is not None and not raised(out.get("pack")):
+        try:                                  # the class has been used now: a second instance must behave the same
+            again = construct()
+            out["again"] = (canon(defn.attributes(again)), bytes(ser.pack_serializable(again)))
+        except Exception as e:  # noqa: BLE001
+            out["again"] = ("raised", type(e).__name__, "%s: %s" % (type(e).__name__, str(e)[:160]))
     return out
 
 
@@ -204,7 +230,8 @@ def check_state(world, defn, st):
     argument binding) are part of this property; a difference in the bytes of a single field format that all forms
     share is a codec matter (property C02) and only noted."""
     want = {"construct": canon(defn.flat_norm(st["fields"])), "pack": bytes(st["pbytes"]),
-            "unpack": (canon(defn.flat_norm(st["fields"])), len(st["pbytes"]))}
+            "unpack": (canon(defn.flat_norm(st["fields"])), len(st["pbytes"]), True),
+            "again": (canon(defn.flat_norm(st["fields"])), bytes(st["pbytes"]))}
     res = {form: run_form(world, defn, form, st) for form in ("plain", "compiled", "dataclass")
            if form in defn.forms or form in defn.errors}
     n_cmp, probs, codec_notes = 0, [], []
@@ -212,7 +239,7 @@ def check_state(world, defn, st):
     for form, out in res.items():
         if form == "plain":
             continue
-        for stage in ("class", "construct", "pack", "unpack"):
+        for stage in ("class", "construct", "pack", "unpack", "again"):
             if stage not in out and stage not in ref:
                 continue
             n_cmp += 1
@@ -223,7 +250,9 @@ def check_state(world, defn, st):
                 probs.append((form, stage, key, "%s form: %s %s, plain form %s" % (
                     form, stage, describe(b) if b is not None else "not reached", describe(a) if a is not None else "not reached")))
                 break
-    for stage in ("class", "construct", "pack", "unpack"):
+    for stage in ("class", "construct", "pack", "unpack", "again"):
+        if stage == "again" and stage not in ref:
+            continue
         if stage == "class":
             if "class" in ref:
                 probs.append(("plain", "class", ref["class"][1], "plain definition cannot be created: " + ref["class"][2]))
@@ -233,8 +262,11 @@ def check_state(world, defn, st):
         got = ref.get(stage)
         if got == want[stage]:
             continue
-        if stage == "construct":
-            probs.append(("plain", "construct", got[1] if raised(got) else "differs",
+        if stage == "again" and not raised(got) and got[0] == want[stage][0]:
+            codec_notes.append("second packing of %s: %s, reference codec %s" % ([f["k"] for f in st["def"]], describe(got[1]), describe(want[stage][1])))
+            continue
+        if stage in ("construct", "again"):
+            probs.append(("plain", stage, got[1] if raised(got) else "differs",
                           "plain form after a %s call: %s, definition means %s" % (st["style"], describe(got), describe(want[stage]))))
             break
         codec_notes.append("%s of %s: %s, reference codec %s" % (stage, [f["k"] for f in st["def"]], describe(got), describe(want[stage])))
@@ -251,7 +283,7 @@ def called_states(dot_path):
             continue
         seen.add(m.group(1))
         st = parse_state(_unescape(lbl))
-        yield {k: st[k] for k in ("def", "style", "args", "fields", "pbytes", "pdec")}
+        yield {k: st[k] for k in ("def", "split", "style", "args", "fields", "pbytes", "pdec")}
 
 
 def tlc_exhaustive(cfg):
@@ -281,7 +313,7 @@ def tlc_simulate(cfg, num, seed):
             steps = parse_simulate_file(path)
             if steps and steps[-1][2].get("dphase") == "called":
                 st = steps[-1][2]
-                out.append({k: st[k] for k in ("def", "style", "args", "fields", "pbytes", "pdec")})
+                out.append({k: st[k] for k in ("def", "split", "style", "args", "fields", "pbytes", "pdec")})
         return r, out
     finally:
         shutil.rmtree(tmp, ignore_errors=True)
@@ -291,27 +323,72 @@ def def_key(df):
     return tuple((f["k"], f["d"], f["h"]) for f in df)
 
 
-def run_states(ctx, world, states, tag, cache, codec_notes):
+def base_state(world, base_def, st, spec_index):
+    """a state for the base class of a derived definition: the one TLC computed for that definition when it was
+    enumerated on its own, else (long simulated ones) the leading arguments with the bytes the plain form packs."""
+    key = def_key(base_def.df)
+    for style in (st["style"], "positional"):
+        if (key, style) in spec_index:
+            return spec_index[(key, style)]
+    n = len(base_def.df)
+    bst = {"def": st["def"][:n], "split": 0, "style": "positional", "args": st["args"][:n], "fields": st["args"][:n], "pbytes": ()}
+    packed = run_form(world, base_def, "plain", bst).get("pack")
+    if packed is None or raised(packed):
+        return None
+    bst["pbytes"] = tuple(packed)
+    return bst
+
+
+def materialise(world, st, order, spec_index):
+    """classes of one definition; for a derived one in the given order of first use.
+    -> (Definition to check, [problems found while the base class was used first])"""
+    split = st.get("split", 0)
+    if not split:
+        return Definition(world, st["def"]), None, []
+    base_def = Definition(world, st["def"][:split])
+    early = []
+    if order == "base-first":                 # the base class is instantiated, packed and unpacked before the subclass exists
+        bst = base_state(world, base_def, st, spec_index)
+        if bst is not None:
+            early = check_state(world, base_def, bst)[1]
+    return Definition(world, st["def"], base=base_def), base_def, early
+
+
+def run_states(ctx, world, states, tag, cache, codec_notes, spec_index=None):
+    spec_index = spec_index if spec_index is not None else {}
     n_cmp_total = 0
     for st in states:
-        key = def_key(st["def"])
-        if key not in cache:
-            cache[key] = Definition(world, st["def"])
-        defn = cache[key]
-        n_cmp, probs, notes = check_state(world, defn, st)
-        n_cmp_total += n_cmp
-        ctx.evaluated(1)
-        ctx.nontrivial((key, st["style"]))
-        for n in notes:
-            kinds = tuple(sorted({f["k"] for f in st["def"]}))
-            codec_notes.setdefault(kinds if len(kinds) < 3 else ("...",), n)
-        for form, aspect, k, detail in probs:
-            kinds = "+".join(sorted({f["k"] for f in st["def"] if f["d"]}))
-            ctx.violation("def:%s:%s:%s" % (form, aspect, k),
-                          "definition %s, %s call: %s%s" % (
-                              [(f["k"], "default" if f["d"] else "", "rules" if f["h"] else "") for f in st["def"]],
-                              st["style"], detail, (" [kinds with defaults: %s]" % kinds) if kinds else ""),
-                          {"state": plain(st)})
+        split = st.get("split", 0)
+        for order in (("base-first", "derived-first") if split else ("",)):
+            key = (def_key(st["def"]), split, order)
+            fresh = key not in cache
+            if fresh:
+                cache[key] = materialise(world, st, order, spec_index)
+            defn, base_def, early = cache[key]
+            n_cmp, probs, notes = check_state(world, defn, st)
+            probs = [(f, a, k, d, "") for f, a, k, d in probs]
+            if fresh:
+                probs += [(f, a, k, "base class, used before its subclass existed: " + d, ":base") for f, a, k, d in early]
+                if order == "derived-first":  # now the base class is used for the first time: it must be unaffected
+                    bst = base_state(world, base_def, st, spec_index)
+                    if bst is not None:
+                        n2, late, _ = check_state(world, base_def, bst)
+                        n_cmp += n2
+                        probs += [(f, a, k, "base class, first used after its subclass: " + d, ":base") for f, a, k, d in late]
+            n_cmp_total += n_cmp
+            ctx.evaluated(1)
+            ctx.nontrivial((key, st["style"]))
+            for n in notes:
+                kinds = tuple(sorted({f["k"] for f in st["def"]}))
+                codec_notes.setdefault(kinds if len(kinds) < 3 else ("...",), n)
+            for form, aspect, k, detail, who in probs:
+                kinds = "+".join(sorted({f["k"] for f in st["def"] if f["d"]}))
+                shape = [(f["k"], "default" if f["d"] else "", "rules" if f["h"] else "") for f in st["def"]]
+                ctx.violation("def:%s:%s:%s%s%s" % (form, aspect, k, (":derived-" + order) if split else "", who),
+                              "definition %s%s, %s call: %s%s" % (
+                                  shape if not split else "%s extended by subclass fields %s (%s)" % (shape[:split], shape[split:], order),
+                                  "", st["style"], detail, (" [kinds with defaults: %s]" % kinds) if kinds else ""),
+                              {"state": plain(st)})
     return n_cmp_total
 
 
@@ -344,15 +421,22 @@ def shipped_classes(ctx, world, rng, per_class):
 
 def sabotage_control(ctx, world, states):
     """a form that silently drops the custom rules must be flagged by the comparison."""
-    st = next(s for s in states if any(f["h"] for f in s["def"]))
+    st = next(s for s in states if any(f["h"] for f in s["def"]) and not s["split"])
     bad = Definition(world, st["def"], sabotage="no-hooks")
     mixed = Definition(world, st["def"])
     mixed.forms["compiled"] = bad.forms["compiled"]
     _, p_bad, _ = check_state(world, mixed, st)
     ctx.control("a compiled form that ignores fix_pack_/fix_unpack_ is flagged",
                 any(p[0] == "compiled" and p[1] in ("pack", "unpack") for p in p_bad))
+    # a subclass that silently behaves like its (already used) base class must be flagged
+    st3 = next(s for s in states if s["split"] and not any(f["k"] == "bits" for f in s["def"]))
+    good, base_def, _ = materialise(world, st3, "base-first", {})
+    good.forms["dataclass"] = type("Stale", (base_def.forms["dataclass"],), {})
+    _, p_stale, _ = check_state(world, good, st3)
+    ctx.control("a derived dataclass that still encodes/decodes as its base class is flagged",
+                any(p[0] == "dataclass" for p in p_stale))
     # and a definition whose plain form does not do what PayloadDef.tla says (wrong default) is flagged as well
-    st2 = next(s for s in states if s["style"] == "defaulted")
+    st2 = next(s for s in states if s["style"] == "defaulted" and not s["split"])
     wrong = Definition(world, st2["def"])
     first = next(iter(wrong.defaults))
     wrong.defaults[first] = object()
@@ -370,7 +454,10 @@ def run(tier, seed, replay=None):
                        "materialised as plain / vp_compile'd / dataclass class and, per calling convention (positional, "
                        "keyword, defaults omitted), constructor result, bytes and decoded attributes are compared with the "
                        "values TLC computed from the plain definition.  distinct_nontrivial = distinct (definition, calling "
-                       "convention) pairs; disagreements_checked = individual form-vs-definition comparisons")
+                       "convention) pairs; disagreements_checked = individual form-vs-definition comparisons.  Derived "
+                       "definitions (a subclass adding 1-2 fields to a base definition; meaning = concatenated field list) are "
+                       "materialised twice, with the base class used before the subclass exists and with the subclass used "
+                       "first; every class is instantiated at least twice")
     ctx.assumptions += ["field names are generated identifiers (f1, f2_0 ...); names that collide with Python keywords or with "
                         "the attributes of the payload classes are outside the explored space",
                         "default values are immutable literals / instances of the field's type; dataclass default_factory "
@@ -388,6 +475,7 @@ def run(tier, seed, replay=None):
         if "state" in rp:
             st = canon(rp["state"])
             st["def"] = tuple(st["def"])
+            st.setdefault("split", 0)
             n = run_states(ctx, world, [st], "replay", cache, {})
             ctx.sample({"replayed_definition": plain(st["def"])})
         else:                                   # recordings of the forms of a shipped class
@@ -434,23 +522,29 @@ def run(tier, seed, replay=None):
         ctx.control("specification in which a text default is lost (pinned _compile_init) violates DefaultsUsed",
                     r_ctl.violated == "DefaultsUsed")
         r, states = f_ex.result()
-        r.coverage = {"AddField": (r.distinct - len(states), r.distinct - len(states)), "Call": (len(states), len(states))}
+        n_der = len({(def_key(s_["def"]), s_["split"]) for s_ in states if s_["split"]})
+        r.coverage = {"AddField": (r.distinct - len(states) - n_der, r.distinct - len(states) - n_der), "Derive": (n_der, n_der),
+                      "Call": (len(states), len(states))}
         ctx.add_tlc("exhaustive", r)
-        n_cmp = run_states(ctx, world, states, "exhaustive", cache, codec_notes)
+        spec_index = {(def_key(s_["def"]), s_["style"]): s_ for s_ in states if not s_["split"]}
+        n_cmp = run_states(ctx, world, states, "exhaustive", cache, codec_notes, spec_index)
         n_defs_ex = len(cache)
         longest = 0
         for i, f in enumerate(f_sim):
             rs, sim_states = f.result()
             rs.coverage = {}
             ctx.add_tlc("simulate%d" % i, rs)
-            n_cmp += run_states(ctx, world, sim_states, "simulate", cache, codec_notes)
+            n_cmp += run_states(ctx, world, sim_states, "simulate", cache, codec_notes, spec_index)
             longest = max([longest] + [len(s["def"]) for s in sim_states])
             if i == 0 and sim_states:
                 s0 = max(sim_states, key=lambda s: len(s["def"]))
                 ctx.sample({"simulated_definition": [(f_["k"], f_["d"], f_["h"]) for f_ in s0["def"]], "call": s0["style"],
                             "bytes_by_TLC": bytes(s0["pbytes"]).hex()})
-        for s in states[:2] + states[len(states) // 2:len(states) // 2 + 1]:
-            ctx.sample({"definition": [(f_["k"], f_["d"], f_["h"]) for f_ in s["def"]], "call": s["style"],
+        derived_states = [s_ for s_ in states if s_["split"]]
+        if len(derived_states) < 50:
+            raise MachineryError("TLC enumerated only %d derived definitions" % len(derived_states))
+        for s in states[:2] + states[len(states) // 2:len(states) // 2 + 1] + derived_states[len(derived_states) // 3:][:1]:
+            ctx.sample({"definition": [(f_["k"], f_["d"], f_["h"]) for f_ in s["def"]], "base_class_fields": s["split"], "call": s["style"],
                         "fields_by_TLC": plain(s["fields"]), "bytes_by_TLC": bytes(s["pbytes"]).hex()})
         if len(states) < 100 or longest < 8:
             raise MachineryError("TLC produced too few definitions (%d states, longest simulated %d)" % (len(states), longest))
@@ -496,6 +590,7 @@ def run(tier, seed, replay=None):
         print("NOTE C20: %d kind(s) of field whose bytes differ from the reference codec in every form alike "
               "(a codec matter, decided by C02; not a translation disagreement)" % len(codec_notes))
     ctx.note("definitions", {"exhaustive": n_defs_ex, "simulated": len(cache) - n_defs_ex, "longest_simulated": longest,
-                             "with_dataclass_form": sum(1 for d in cache.values() if "dataclass" in d.forms or "dataclass" in d.errors),
+                             "derived_x_order": sum(1 for k_ in cache if k_[1]),
+                             "with_dataclass_form": sum(1 for d, _, _ in cache.values() if "dataclass" in d.forms or "dataclass" in d.errors),
                              "shipped_variable_payloads": len(keys), "shipped_instances_x_forms": len(traces)})
     return ctx.finish()
